@@ -340,7 +340,93 @@ static void pair_on_result(long idx, const run_res_t *r) {
 	if (l) fail = atol(l); else if (r->status != 0) fail = res_last_progress(r);
 	if (fail >= 0 && npresume < 4096) { presume[npresume][0] = pround_base + idx; presume[npresume][1] = fail; npresume++; }
 }
-void c10_register(void) { harness_register("c10.h", c10_child); harness_register("c10.pair", c10_pair_child); harness_register("c10.lin", c10_lin_child); }
+
+/* ---------------------------------------------------------------- H8 (c10.settle): command || flush || receiver, the bus answering live
+ * A high-level command records a pending / optimistic value and the board's answer replaces it.  The answer is CAUSED by the
+ * command, so in every serial order it is applied after the command's own bookkeeping: once everything has settled, the tracked
+ * state must be the one of the sequential run (command; flush; answer), whichever thread flushed the request and whenever the
+ * receiver handled the answer.  A command that still writes its bookkeeping AFTER it handed the request to the transmission
+ * layer can overwrite the answer that a concurrent flush made possible — a final state no serial order produces. */
+static const char *SETTLE_NAME[] = {"bidib_request_reverser_state(rev1)", "bidib_switch_point(point1: board accessory)", "bidib_switch_point(pointd: DCC accessory)", "bidib_set_signal(signal1)",
+	"bidib_set_peripheral(led1)", "bidib_set_train_speed(train1)", "bidib_set_train_peripheral(train1, head_light)", "bidib_set_booster_power_state(master)", "bidib_set_track_output_state(master)",
+	"bidib_emergency_stop_train(train1)", "bidib_set_calibrated_train_speed(train1)"};
+#define N_SETTLE ((int) (sizeof SETTLE_NAME / sizeof SETTLE_NAME[0]))
+static int settle_cmd, settle_rc;
+static void settle_do(int c) {
+	switch (c) {
+	case 0: settle_rc = bidib_request_reverser_state("rev1", "master"); break;
+	case 1: settle_rc = bidib_switch_point("point1", "reverse"); break;
+	case 2: settle_rc = bidib_switch_point("pointd", "reverse"); break;
+	case 3: settle_rc = bidib_set_signal("signal1", "green"); break;
+	case 4: settle_rc = bidib_set_peripheral("led1", "on"); break;
+	case 5: settle_rc = bidib_set_train_speed("train1", 20, "master"); break;
+	case 6: settle_rc = bidib_set_train_peripheral("train1", "head_light", 0, "master"); break;
+	case 7: settle_rc = bidib_set_booster_power_state("master", true); break;
+	case 8: settle_rc = bidib_set_track_output_state("master", BIDIB_CS_GO); break;
+	case 9: settle_rc = bidib_emergency_stop_train("train1", "master"); break;
+	case 10: settle_rc = bidib_set_calibrated_train_speed("train1", 4, "master"); break;
+	} }
+static void *settle_t1(void *p) { (void) p; settle_do(settle_cmd); return NULL; }
+static void *settle_t2(void *p) { (void) p; bidib_flush(); return NULL; }
+static void c10_settle_child(const void *job, size_t n) {
+	vs_dev_t devs[VS_MAXDEV]; int nd; size_t pl; const uint8_t *p = job_parse(job, n, devs, &nd, &pl);
+	settle_cmd = p[0]; int reference = p[1]; uint64_t ea = 0, eb = 0; if (pl >= 18) { memcpy(&ea, p + 2, 8); memcpy(&eb, p + 10, 8); }
+	hx_child_begin(devs, nd, 1, NULL, 0, 0);
+	san_tsan_ignore(1);
+	cm_std(&M); cm_install(&M);
+	if (hx_start_normal(0)) res_infra("normal start failed");
+	hx_quiesce(); vs_sleep_us(2500000); hx_quiesce();
+	uint8_t *m; while ((m = bidib_read_message())) free(m); while ((m = bidib_read_error_message())) free(m);
+	san_reset(); san_tsan_ignore(0);
+	settle_rc = -1;
+	if (reference) { settle_do(settle_cmd); bidib_flush(); hx_quiesce(); }
+	else {
+		vs_unlock_points = 1;      /* the stretch between two critical sections of the command is where the answer can slip in */
+		vs_window(1);
+		int t1 = vs_spawn(settle_t1, NULL), t2 = vs_spawn(settle_t2, NULL);
+		vs_join_tid(t1); vs_join_tid(t2); hx_quiesce();
+		vs_window(0);
+		vs_unlock_points = 0;
+	}
+	bidib_flush(); hx_quiesce(); vs_sleep_us(300000); hx_quiesce();
+	if (settle_rc != 0) res_infra("the command under test was rejected");
+	static char dump[1 << 16]; sd_dump(dump, sizeof dump);
+	hx_hash_t h; hx_hash_init(&h); hx_hash_str(&h, dump);
+	if (reference) { res_printf("S %llx %llx\n", (unsigned long long) h.a, (unsigned long long) h.b); static char one[1 << 16]; size_t o = 0; for (const char *c = dump; *c && o + 2 < sizeof one; c++) one[o++] = *c == '\n' ? ' ' : *c; one[o] = 0; res_printf("D %s\n", one); }
+	else if (h.a != ea || h.b != eb) {
+		char cls[200]; snprintf(cls, sizeof cls, "settled-state-differs command=%s: after command, flush and answer have all been handled the tracked state is not the one of the sequential run", SETTLE_NAME[settle_cmd]);
+		/* name the first differing entry against the reference dump, which travels behind the hashes (entries end with ';') */
+		const char *ref = pl > 18 ? (const char *) (p + 18) : ""; char extra[300] = "", miss[300] = "";
+		for (int dir = 0; dir < 2; dir++) { const char *src = dir ? ref : dump, *other = dir ? dump : ref; char *out = dir ? miss : extra;
+			for (const char *c = src; *c; ) { const char *e = strchr(c, ';'); size_t l = e ? (size_t) (e - c) + 1 : strlen(c); while (l && (*c == '\n' || *c == ' ')) { c++; l--; }
+				if (l && l < 298) { char key[300]; memcpy(key, c, l); key[l] = 0; if (!strstr(other, key)) { memcpy(out, key, l + 1); break; } } if (!e) break; c = e + 1; } }
+		res_violation(cls, "entry of the state dump that the sequential run does not have: %s entry of the sequential run that is missing: %s", extra[0] ? extra : "(none)", miss[0] ? miss : "(none)"); }
+#if defined(VARIANT_TSAN)
+	emit_races("H8 command||flush||receiver");
+#endif
+	san_tsan_ignore(1);
+	hx_emit_ledger_violations("C10");
+	res_printf("O %llx %llx\n", (unsigned long long) h.a, (unsigned long long) h.b);
+	hx_emit_trace(); res_finish();
+}
+static void run_settle(int thorough, int tsan, long *execs, long *states, long *transitions, int *exhaustive) {
+	long sch = 0, outs = 0;
+	for (int c = 0; c < N_SETTLE; c++) {
+		static uint8_t param[1 << 16]; size_t pn = 2; param[0] = (uint8_t) c; param[1] = 1;
+		{ uint8_t job[64]; size_t jn = job_build(job, NULL, 0, param, 2); run_submit(harness_find("c10.settle"), job, jn, NULL); run_res_t r; run_wait(&r); rep_collect(&r, "c10.settle", job, jn, "sequential reference run");
+		  unsigned long long a = 0, b = 0; const char *s = res_line(&r, 'S', 0); int got = s && sscanf(s, "%llx %llx", &a, &b) == 2; const char *d = res_line(&r, 'D', 0);      /* res_line returns a static buffer */
+		  if (!got) { rep_infra("c10.settle: no reference state for %s", SETTLE_NAME[c]); *exhaustive = 0; continue; }
+		  uint64_t ea = a, eb = b; memcpy(param + 2, &ea, 8); memcpy(param + 10, &eb, 8); pn = 18;
+		  if (d) { size_t dl = strlen(d); if (dl > sizeof param - 20) dl = sizeof param - 20; memcpy(param + 18, d, dl); param[18 + dl] = 0; pn = 19 + dl; }
+		  (*execs)++; }
+		param[1] = 0; char label[160]; snprintf(label, sizeof label, "H8 %s || bidib_flush || receiver", SETTLE_NAME[c]);
+		e1_spec_t s = { .harness = "c10.settle", .param = param, .nparam = pn, .bound = tsan ? 1 : (thorough ? 3 : 2), .label = strdup(label) };
+		e1_explore(&s); for (int k = 0; k < 8; k++) sch += s.schedules_by_cost[k]; outs += s.distinct_outcomes; *transitions += s.choice_points; if (!s.exhaustive) *exhaustive = 0;
+	}
+	*execs += sch; *states += outs;
+	rep_note("H8 c10.settle: %d commands, each || bidib_flush || receiver with the bus answering live, scheduling points after unlocks: %ld schedules, %ld distinct settled states (one per command expected)", N_SETTLE, sch, outs);
+}
+void c10_register(void) { harness_register("c10.settle", c10_settle_child); harness_register("c10.h", c10_child); harness_register("c10.pair", c10_pair_child); harness_register("c10.lin", c10_lin_child); }
 static int excluded_entry(int e) { return !strcmp(entry_name(e), "bidib_send_sys_reset"); }
 static void run_pairs(int thorough, int tsan, long *execs, long *states, long *transitions, int *exhaustive) {
 	int NE = N_HL + N_LL; npjobs = 0; pround_base = 0; long planned = 0;
@@ -401,6 +487,7 @@ int c10_run(const char *tier) {
 	const char *variant = getenv("VERIF_VARIANT"); int tsan = variant && !strcmp(variant, "tsan");
 	long execs = 0, states = 0, transitions = 0; int exhaustive = 1;
 	static const char *HN[6] = {"", "H1 senders||receiver||auto-flush", "H2 receiver||getters||snapshot", "H3 readers||receiver", "H4 DCC setters||getters||receiver", "H7 receiver(board accessories, peripherals)||snapshot||getter"};
+	if (getenv("VERIF_C10_ONLY_SETTLE")) { run_settle(thorough, tsan, &execs, &states, &transitions, &exhaustive); rep_count("executions", execs); rep_count("states", states); rep_count("transitions", transitions); rep_flag("exhaustive", 0); return 0; }      /* development aid */
 	for (int hn = 1; hn <= 5; hn++) {
 		reflen[hn] = 0;
 		if (!tsan && (hn == 1 || hn == 3)) continue;     /* no atomicity oracle for these: they are there for the race detector (exactly-one-reader is C06's) */
@@ -424,6 +511,7 @@ int c10_run(const char *tier) {
 	}
 	run_pairs(thorough, tsan, &execs, &states, &transitions, &exhaustive);
 	if (!tsan) run_lin(thorough, &execs, &states, &transitions, &exhaustive);
+	run_settle(thorough, tsan, &execs, &states, &transitions, &exhaustive);
 	rep_count("executions", execs); rep_count("states", states); rep_count("transitions", transitions); rep_flag("exhaustive", exhaustive);
 	return 0;
 }
